@@ -85,7 +85,7 @@ func deliver(c *Ctx, ch *lab.Child, gs *srv, t *rpcTarget, caseID string, req, r
 		for _, e := range out.byKind("wire") {
 			st = fmt.Sprint(e["status"])
 		}
-		c.R.Violate(caseID, "handler-not-reached", "status "+st, rp(map[string]any{"client_error": out.Ret["err"]}))
+		c.R.Violate(caseID, "handler-not-reached", "st"+st, rp(map[string]any{"client_error": out.Ret["err"]}))
 		return true
 	case len(hs) > 1:
 		c.R.Violate(caseID, "handler-entered-twice", "", rp(nil))
